@@ -133,7 +133,8 @@ let eval_e2e fs =
   let blobs = parse_blobs (get fs "blobs") in
   let v = get fs "v" in
   let log = parse_records (get fs "log") in
-  let cfg = { c_max_attempts = z_of_int 3; c_oor_error = false; c_fetch_v5 = (v <> "2") && (List.assoc_opt "f2fixed" fs <> Some "1") } in
+  let _ = v in
+  let cfg = { c_max_attempts = z_of_int 3; c_oor_error = false } in
   let run = fetch_run (decomp_of blobs) big_fuel in
   let st = ref r_init in
   let delivered = ref [] in          (* model's returns, newest first *)
@@ -195,7 +196,7 @@ let eval_e2e fs =
       let gv = gen_of g in
       (match conn_off gv with
        | Some gs ->
-         if hex_of_z gs.g_conn <> reqoff && not gs.g_desync then
+         if hex_of_z gs.g_conn <> reqoff then
            note (Printf.sprintf "REQOFF gen %s model %s real %s" g (hex_of_z gs.g_conn) reqoff)
        | None -> note ("NOGEN " ^ g));
       let r = (match kind with
